@@ -1,9 +1,9 @@
 package main
 
 import (
-	"reflect"
 	"fmt"
 	"math/rand"
+	"reflect"
 	"sort"
 	"strconv"
 	"strings"
@@ -38,15 +38,17 @@ type pOp struct {
 	Name     string         `json:"name,omitempty"`
 	ArgsPath string         `json:"argsPath,omitempty"`
 	// ArgsPathTmpl, when set, is the template text written into the action (it renders to ArgsPath against the data of the case)
-	ArgsPathTmpl string `json:"argsPathTmpl,omitempty"`
-	Args     map[string]any `json:"args,omitempty"` // []tpart | map[string][]tpart
-	Items    []string       `json:"items,omitempty"`
-	Query    string         `json:"query,omitempty"`
-	Var      string         `json:"var,omitempty"`
-	Body     *pAct          `json:"body,omitempty"`
-	Init     *pAct          `json:"init,omitempty"`
-	Post     *pAct          `json:"post,omitempty"`
-	Test     pCond          `json:"test,omitempty"`
+	ArgsPathTmpl string         `json:"argsPathTmpl,omitempty"`
+	Args         map[string]any `json:"args,omitempty"` // []tpart | map[string][]tpart
+	Items        []string       `json:"items,omitempty"`
+	// Glob, when set, is what the action says (a file pattern); Items then lists the files it matches, in order
+	Glob  string `json:"glob,omitempty"`
+	Query string `json:"query,omitempty"`
+	Var   string `json:"var,omitempty"`
+	Body  *pAct  `json:"body,omitempty"`
+	Init  *pAct  `json:"init,omitempty"`
+	Post  *pAct  `json:"post,omitempty"`
+	Test  pCond  `json:"test,omitempty"`
 }
 
 type pAct struct {
@@ -158,7 +160,9 @@ func (a *pAct) yamlMap() map[string]any {
 			if o.Var != "" {
 				fm["var"] = o.Var
 			}
-			if o.Query != "" {
+			if o.Glob != "" {
+				fm["glob"] = o.Glob
+			} else if o.Query != "" {
 				fm["query"] = o.Query
 			} else {
 				its := []any{}
